@@ -85,7 +85,7 @@ Proof.
   unfold cl_step in X. destruct p, c; try discriminate X; destr X; injection X as <- _; try exact R.
   all: first [eapply rinv_mono; [exact R|reflexivity|reflexivity|reflexivity|gmono]
              |eapply rinv_mono; [exact R'|reflexivity|reflexivity|reflexivity|]].
-  unfold glob, close_unstarted; destruct (fix16 s); simpl; intros G; rewrite ?orb_true_r; auto.
+  all: unfold glob, close_unstarted; destruct (fix16 s); simpl; intros G; rewrite ?orb_true_r; auto.
 Qed.
 
 Lemma hctx_reason s h : RInv s -> hctx_done s h = true -> reason (hs s h) = true \/ glob s = true.
